@@ -366,3 +366,28 @@ package motion
 //@   ensures [C03] mp.recLen()
 //@   ensures [C04] mp.recRun()
 //@   ensures [C12,C17] mp.PInvC() && mp.PInvS()
+
+// ---------------------------------------------------------------------------
+// L2: detector (C07 C08 C09 C15)
+
+//@ pure func cl(v int, t int) int := v < t ? t : v
+//@ pure func dabs(a int, b int) int := a >= b ? a - b : b - a
+//@ pure func dwarm(a int, b int) int := a >= b ? a - b : 0
+
+//@ func absDiff
+//@   ensures [C07] result == dabs(a, b)
+//@ func warmerDiff
+//@   ensures [C07] result == dwarm(a, b)
+
+//@ func isAffectedByFFC
+//@   requires f != nil
+//@   ensures [C09] result == (f.Status.TimeOn - f.Status.LastFFCTime < 10000000000)
+
+// clampSpec: the mean limited to [temp-thresh-min, temp-thresh-max]; a bound of 0 means "not configured".
+//@ pure func clampLo(avg real, lo int) real := lo != 0 ? max(avg, real(lo)) : avg
+//@ pure func clampSpec(avg real, lo int, hi int) real := hi != 0 ? min(clampLo(avg, lo), real(hi)) : clampLo(avg, lo)
+
+//@ func (d *motionDetector) calculateThreshold
+//@   requires d != nil && 0.0 <= backAverage && backAverage < 65536.0
+//@   modifies d.tempThresh
+//@   ensures [C15] d.tempThresh == floor(clampSpec(backAverage, d.tempThreshMin, d.tempThreshMax))
